@@ -585,6 +585,7 @@ enum Action
 {
     Nothing,
     RunSys(Entity),
+    RunMany(Entity, u32),
     SysEvent(Entity, u8, u32),
     Broadcast(u8, u32),
     EntityEvent(Entity, u8, u32),
@@ -626,6 +627,15 @@ fn resolve_op(op: &Op, own: Option<SysUid>) -> (Resolved, Action)
                 match sys_entity(case, uid)
                 {
                     Some(e) => (Resolved::Sys(uid), Action::RunSys(e)),
+                    None => (Resolved::Skipped(SkipReason::NoToken), Action::Nothing),
+                }
+            }
+            Op::RunMany(s, k) =>
+            {
+                let uid = resolve_sys(case, *s);
+                match sys_entity(case, uid)
+                {
+                    Some(e) => (Resolved::Sys(uid), Action::RunMany(e, 140 + 60 * (*k as u32 % 3))),
                     None => (Resolved::Skipped(SkipReason::NoToken), Action::Nothing),
                 }
             }
@@ -784,6 +794,7 @@ fn perform(c: &mut Commands, action: Action, resolved: &Resolved)
     {
         Action::Nothing => {}
         Action::RunSys(e) => c.queue(SystemCommand(e)),
+        Action::RunMany(e, n) => { for _ in 0..n { c.queue(SystemCommand(e)); } }
         Action::SysEvent(e, 0, id) => c.send_system_event(SystemCommand(e), Pay::<0>::of_case(id)),
         Action::SysEvent(e, _, id) => c.send_system_event(SystemCommand(e), Pay::<1>::of_case(id)),
         Action::Broadcast(0, id) => c.react().broadcast(Pay::<0>::of_case(id)),
